@@ -196,13 +196,14 @@ def pFileLoop : Nat → List Rule → PS → Option (List Rule × PS)
 structure ParseResult where
   rules : List Rule
   errs : List PErr           -- in the order reported
+  left : Nat                 -- tokens not consumed when the parser stopped (incl. the current one)
   deriving Repr
 
 /-- `ParseEx(file, src, 0, nil)` after scanning; `none` = fuel exhausted (never: `C31_fuel_adequate`). -/
 def parseFile (ts : List Tok) : Option ParseResult :=
   match pFileLoop (ts.length + 1) [] ⟨ts, []⟩ with
   | none => none
-  | some (rules, s) => some ⟨rules, s.errs.reverse⟩
+  | some (rules, s) => some ⟨rules, s.errs.reverse, s.ts.length⟩
 
 /-! ## Printing with the minimal parentheses (specification side of C31) -/
 
